@@ -2003,4 +2003,236 @@ Section Main.
       rewrite enc_ifelse, app_length. cbn [List.length]. rewrite app_length. cbn [List.length].
       do 2 f_equal. lia.
   Qed.
+
+  (* ----- IF ----- *)
+
+  Lemma L_if : forall c nx n i ts, spell_name c O_IF n -> P_iftail c nx i ts -> P_stmt c nx [i] (n :: ts).
+  Proof.
+    intros c nx n i ts N IH. start n ts.
+    split. { apply (name_head_ok c O_IF); [exact N|]. intros _; discriminate. }
+    wfs. cbn [List.length] in L.
+    destruct (IH W f' r 0%nat [] n ltac:(lia) Hr) as ((s1 & t & Q & E) & R).
+    rewrite PN_S, pn_if_kw by exact N. cbn [app]. rewrite Q, (parse_if_nohoist _ _ n s1 t E), <- Q, R.
+    rewrite encode_one. cbn [List.length app]. f_equal. f_equal. lia.
+  Qed.
+
+  Lemma L_ifh : forall c nx n cond sc i ts, spell_name c O_IF n ->
+    seq fl2 (sub_ctx c) None cond sc -> P_seq (sub_ctx c) None cond sc -> P_iftail c nx i ts ->
+    P_stmt c nx (cond ++ [i]) (n :: "(" :: sc ++ ")" :: ts).
+  Proof.
+    intros c nx n cond sc i ts N S IHc IH. start n ("(" :: sc ++ ")" :: ts).
+    split. { apply (name_head_ok c O_IF); [exact N|]. intros _; discriminate. }
+    wfs. cbn [List.length] in L. rewrite app_length in L. cbn [List.length] in L.
+    destruct (leafb_spec n (spell_name_leaf c O_IF n N)) as (_ & _ & _ & K1 & K2 & _).
+    destruct (good_seq fl2 _ _ _ _ S H) as (_ & B & _).
+    rewrite PN_S, pn_if_kw by exact N. cbn [app]. rewrite <- app_assoc. cbn [app].
+    rewrite (parse_if_hoist _ _ n sc (ts ++ r) K1 K2 B).
+    pose proof (IHc H f' [] ltac:(lia) eq_refl) as Rc. rewrite app_nil_r in Rc.
+    unfold ASM. rewrite (asm_loop_run (PN f') _ _ _ _ Rc (sub_ctx_nd c) _ (le_n _)). cbn [rbind].
+    destruct (IH H0 f' r (List.length sc + 2)%nat (encode cond) n ltac:(lia) Hr) as (_ & R). rewrite R.
+    unfold encode. rewrite flat_map_app. cbn [flat_map]. rewrite app_nil_r.
+    cbn [List.length]. rewrite app_length. cbn [List.length]. f_equal. f_equal. lia.
+  Qed.
+
+  (* ----- TRY ----- *)
+
+  Lemma L_try_b : forall c nx n b1 sb1, try_name n -> P_seq (sub_ctx c) (Some "}") b1 sb1 ->
+    nx <> Some "EXCEPT" -> P_stmt c nx [ITry b1 []] (n :: braces sb1).
+  Proof.
+    intros c nx n b1 sb1 N IH NX. start n (braces sb1).
+    split; [apply try_head_ok; exact N|]. wfs. cbn [List.length] in L. rewrite length_braces in L.
+    pose proof (IH H f' ("}" :: r) ltac:(lia) eq_refl) as R.
+    rewrite PN_S, pn_try_kw by exact N. cbn [app].
+    rewrite (try_b (PN f') (sub_ctx c) (sub_ctx_nd c) n sb1 r (encode b1) R H2) by (rewrite Hr; exact NX).
+    rewrite encode_one, enc_try. cbn [List.length]. rewrite length_braces. f_equal. f_equal. lia.
+  Qed.
+
+  Lemma L_try_bb : forall c nx n b1 sb1 b2 sb2, try_name n -> P_seq (sub_ctx c) (Some "}") b1 sb1 ->
+    P_seq (sub_ctx c) (Some "}") b2 sb2 ->
+    P_stmt c nx [ITry b1 b2] (n :: braces sb1 ++ "EXCEPT" :: braces sb2).
+  Proof.
+    intros c nx n b1 sb1 b2 sb2 N IH1 IH2. start n (braces sb1 ++ "EXCEPT" :: braces sb2).
+    split; [apply try_head_ok; exact N|]. wfs.
+    cbn [List.length] in L. rewrite app_length in L. cbn [List.length] in L. rewrite !length_braces in L.
+    pose proof (IH1 H f' ("}" :: "EXCEPT" :: braces sb2 ++ r) ltac:(lia) eq_refl) as R1.
+    pose proof (IH2 H1 f' ("}" :: r) ltac:(lia) eq_refl) as R2.
+    rewrite PN_S, pn_try_kw by exact N. cbn [app]. rewrite <- app_assoc. cbn [app].
+    rewrite (try_bx (PN f') (sub_ctx c) (sub_ctx_nd c) n sb1 (braces sb2 ++ r) (encode b1) _ _
+               ltac:(rewrite braces_app; discriminate) R1 H2
+               (clause_braces (PN f') _ _ _ (sub_ctx c) sb2 r (encode b2) (tsets_except (PN f')) eq_refl (sub_ctx_nd c) R2 H0 "EXCEPT")).
+    rewrite encode_one, enc_try. cbn [List.length]. rewrite app_length. cbn [List.length]. rewrite !length_braces.
+    f_equal. f_equal. lia.
+  Qed.
+
+  Lemma L_try_be : forall c nx n b1 sb1 b2 sb2, try_name n -> P_seq (sub_ctx c) (Some "}") b1 sb1 ->
+    P_seq (sub_ctx c) (Some "END_EXCEPT") b2 sb2 ->
+    P_stmt c nx [ITry b1 b2] (n :: braces sb1 ++ "EXCEPT" :: sb2 ++ ["END_EXCEPT"]).
+  Proof.
+    intros c nx n b1 sb1 b2 sb2 N IH1 IH2. start n (braces sb1 ++ "EXCEPT" :: sb2 ++ ["END_EXCEPT"]).
+    split; [apply try_head_ok; exact N|]. wfs.
+    cbn [List.length] in L. rewrite app_length in L. cbn [List.length] in L.
+    rewrite app_length, length_braces in L. cbn [List.length] in L.
+    pose proof (IH1 H f' ("}" :: "EXCEPT" :: sb2 ++ "END_EXCEPT" :: r) ltac:(lia) eq_refl) as R1.
+    pose proof (IH2 H1 f' ("END_EXCEPT" :: r) ltac:(lia) eq_refl) as R2.
+    rewrite PN_S, pn_try_kw by exact N. cbn [app]. rewrite <- app_assoc. cbn [app]. rewrite <- app_assoc. cbn [app].
+    rewrite (try_bx (PN f') (sub_ctx c) (sub_ctx_nd c) n sb1 (sb2 ++ "END_EXCEPT" :: r) (encode b1) _ _
+               ltac:(destruct sb2; discriminate) R1 H2
+               (clause_ended (PN f') ["END_EXCEPT"] _ _ (sub_ctx c) sb2 "END_EXCEPT" r (encode b2) (tsets_except (PN f'))
+                  eq_refl eq_refl eq_refl (sub_ctx_nd c) R2 H0 "EXCEPT")).
+    rewrite encode_one, enc_try. cbn [List.length]. rewrite app_length. cbn [List.length].
+    rewrite app_length, length_braces. cbn [List.length]. f_equal. f_equal. lia.
+  Qed.
+
+  Lemma L_try_eb : forall c nx n b1 sb1 b2 sb2, try_name n -> P_seq (sub_ctx c) (Some "EXCEPT") b1 sb1 ->
+    P_seq (sub_ctx c) (Some "}") b2 sb2 ->
+    P_stmt c nx [ITry b1 b2] (n :: sb1 ++ "EXCEPT" :: braces sb2).
+  Proof.
+    intros c nx n b1 sb1 b2 sb2 N IH1 IH2. start n (sb1 ++ "EXCEPT" :: braces sb2).
+    split; [apply try_head_ok; exact N|]. wfs.
+    cbn [List.length] in L. rewrite app_length in L. cbn [List.length] in L. rewrite length_braces in L.
+    pose proof (IH1 H f' ("EXCEPT" :: braces sb2 ++ r) ltac:(lia) eq_refl) as R1.
+    pose proof (IH2 H1 f' ("}" :: r) ltac:(lia) eq_refl) as R2.
+    rewrite PN_S, pn_try_kw by exact N. cbn [app]. rewrite <- app_assoc. cbn [app].
+    rewrite (try_ex (PN f') (sub_ctx c) (sub_ctx_nd c) n sb1 (braces sb2 ++ r) (encode b1) _ _ R1 H2
+               (clause_braces (PN f') _ _ _ (sub_ctx c) sb2 r (encode b2) (tsets_except (PN f')) eq_refl (sub_ctx_nd c) R2 H0 "EXCEPT")).
+    rewrite encode_one, enc_try. cbn [List.length]. rewrite app_length. cbn [List.length]. rewrite length_braces.
+    f_equal. f_equal. lia.
+  Qed.
+
+  Lemma L_try_ee : forall c nx n b1 sb1 b2 sb2, try_name n -> P_seq (sub_ctx c) (Some "EXCEPT") b1 sb1 ->
+    P_seq (sub_ctx c) (Some "END_EXCEPT") b2 sb2 ->
+    P_stmt c nx [ITry b1 b2] (n :: sb1 ++ "EXCEPT" :: sb2 ++ ["END_EXCEPT"]).
+  Proof.
+    intros c nx n b1 sb1 b2 sb2 N IH1 IH2. start n (sb1 ++ "EXCEPT" :: sb2 ++ ["END_EXCEPT"]).
+    split; [apply try_head_ok; exact N|]. wfs.
+    cbn [List.length] in L. rewrite app_length in L. cbn [List.length] in L.
+    rewrite app_length in L. cbn [List.length] in L.
+    pose proof (IH1 H f' ("EXCEPT" :: sb2 ++ "END_EXCEPT" :: r) ltac:(lia) eq_refl) as R1.
+    pose proof (IH2 H1 f' ("END_EXCEPT" :: r) ltac:(lia) eq_refl) as R2.
+    rewrite PN_S, pn_try_kw by exact N. cbn [app]. rewrite <- app_assoc. cbn [app]. rewrite <- app_assoc. cbn [app].
+    rewrite (try_ex (PN f') (sub_ctx c) (sub_ctx_nd c) n sb1 (sb2 ++ "END_EXCEPT" :: r) (encode b1) _ _ R1 H2
+               (clause_ended (PN f') ["END_EXCEPT"] _ _ (sub_ctx c) sb2 "END_EXCEPT" r (encode b2) (tsets_except (PN f'))
+                  eq_refl eq_refl eq_refl (sub_ctx_nd c) R2 H0 "EXCEPT")).
+    rewrite encode_one, enc_try. cbn [List.length]. rewrite app_length. cbn [List.length].
+    rewrite app_length. cbn [List.length]. f_equal. f_equal. lia.
+  Qed.
+
+  (* ----- LOOP ----- *)
+
+  Lemma L_loop_b : forall c nx n b sb, spell_name c O_LOOP n -> P_seq (sub_ctx c) (Some "}") b sb ->
+    P_stmt c nx [ILoop b] (n :: braces sb).
+  Proof.
+    intros c nx n b sb N IH. start n (braces sb).
+    split. { apply (name_head_ok c O_LOOP); [exact N|]. intros _; discriminate. }
+    wfs. cbn [List.length] in L. rewrite length_braces in L.
+    pose proof (IH H f' ("}" :: r) ltac:(lia) eq_refl) as R.
+    rewrite PN_S, pn_loop_kw by exact N. cbn [app].
+    rewrite (loop_braces (PN f') (sub_ctx c) sb r (encode b) (sub_ctx_nd c) R H0).
+    rewrite encode_one, enc_loop. cbn [List.length]. rewrite length_braces. f_equal. f_equal. lia.
+  Qed.
+
+  Lemma L_loop_e : forall c nx n b sb, spell_name c O_LOOP n -> P_seq (sub_ctx c) (Some "END_LOOP") b sb ->
+    P_stmt c nx [ILoop b] (n :: sb ++ ["END_LOOP"]).
+  Proof.
+    intros c nx n b sb N IH. start n (sb ++ ["END_LOOP"]).
+    split. { apply (name_head_ok c O_LOOP); [exact N|]. intros _; discriminate. }
+    wfs. cbn [List.length] in L. rewrite app_length in L. cbn [List.length] in L.
+    pose proof (IH H f' ("END_LOOP" :: r) ltac:(lia) eq_refl) as R.
+    rewrite PN_S, pn_loop_kw by exact N. cbn [app]. rewrite <- app_assoc. cbn [app].
+    rewrite (loop_ended (PN f') (sub_ctx c) sb r (encode b) (sub_ctx_nd c) R H0).
+    rewrite encode_one, enc_loop. cbn [List.length]. rewrite app_length. cbn [List.length]. f_equal. f_equal. lia.
+  Qed.
+
+  (* ----- DEF ----- *)
+
+  Lemma L_def_b : forall c nx n h hs b sb, c <> DefDirect -> spell_name c O_DEF n -> sp_handle h hs ->
+    seq fl2 DefDirect (Some "}") b sb -> P_seq DefDirect (Some "}") b sb ->
+    P_stmt c nx [IDef h b] (n :: hs :: braces sb).
+  Proof.
+    intros c nx n h hs b sb C N Hh S IH. start n (hs :: braces sb).
+    split. { apply (name_head_ok c O_DEF); [exact N|]. intros ->. congruence. }
+    wfs. cbn [List.length] in L. rewrite length_braces in L.
+    pose proof (IH H f' ("}" :: r) ltac:(lia) eq_refl) as R.
+    destruct (good_seq fl2 _ _ _ _ S H) as (B & _).
+    rewrite PN_S, pn_def_kw by exact N. cbn [app].
+    rewrite (def_braces (PN f') n hs h sb r (encode b) (sp_handle_ok h hs Hh) B R H0).
+    rewrite encode_one, enc_def. cbn [List.length]. rewrite length_braces. f_equal. f_equal. lia.
+  Qed.
+
+  Lemma L_def_e : forall nx n h hs b sb, spell_name Top O_DEF n -> sp_handle h hs ->
+    seq fl2 DefDirect (Some "END_DEF") b sb -> P_seq DefDirect (Some "END_DEF") b sb ->
+    P_stmt Top nx [IDef h b] (n :: hs :: sb ++ ["END_DEF"]).
+  Proof.
+    intros nx n h hs b sb N Hh S IH. start n (hs :: sb ++ ["END_DEF"]).
+    split. { apply (name_head_ok Top O_DEF); [exact N|]. discriminate. }
+    wfs. cbn [List.length] in L. rewrite app_length in L. cbn [List.length] in L.
+    pose proof (IH H f' ("END_DEF" :: r) ltac:(lia) eq_refl) as R.
+    destruct (good_seq fl2 _ _ _ _ S H) as (_ & _ & _ & M).
+    destruct (leafb_spec n (spell_name_leaf Top O_DEF n N)) as (_ & _ & _ & _ & _ & K1).
+    destruct (leafb_spec hs (sp_handle_leaf h hs Hh)) as (_ & _ & _ & _ & _ & K2).
+    rewrite String.eqb_sym in K1, K2.
+    rewrite PN_S, pn_def_kw by exact N. cbn [app]. rewrite <- app_assoc. cbn [app].
+    rewrite (def_ended (PN f') n hs h sb r (encode b) (sp_handle_ok h hs Hh) K1 K2 (M eq_refl) R H0).
+    rewrite encode_one, enc_def. cbn [List.length]. rewrite app_length. cbn [List.length]. f_equal. f_equal. lia.
+  Qed.
+
+  (* ----- sequences ----- *)
+
+  Lemma L_nil : forall c nx, P_seq c nx [] [].
+  Proof. intros c nx W f r L Hr. cbn [app List.length]. apply run_nil. Qed.
+
+  Lemma L_cons : forall c nx is ss p sp, P_stmt c (hd_or nx sp) is ss -> P_seq c nx p sp ->
+    P_seq c nx (is ++ p) (ss ++ sp).
+  Proof.
+    intros c nx is ss p sp IH1 IH2 W f r L Hr.
+    unfold wf_prog in W. rewrite forallb_app in W. apply andb_prop in W as [W1 W2].
+    rewrite app_length in L.
+    destruct (IH1 W1 f (sp ++ r) ltac:(lia) (hd_error_app sp r nx Hr)) as (h & t & -> & Hh & P).
+    pose proof (IH2 W2 f r ltac:(lia) Hr) as R.
+    rewrite <- app_assoc. unfold encode. rewrite flat_map_app. fold (encode is) (encode p).
+    rewrite app_length. cbn [List.length] in *.
+    apply (run_step (PN f) c h t (sp ++ r) r (encode is) (encode p) (List.length sp) Hh P R).
+  Qed.
+
+  Theorem spells_correct :
+    (forall c nx is ss, stmt fl2 c nx is ss -> P_stmt c nx is ss) /\
+    (forall c nx i ts, iftail fl2 c nx i ts -> P_iftail c nx i ts) /\
+    (forall c nx p ss, seq fl2 c nx p ss -> P_seq c nx p ss).
+  Proof.
+    apply spells_mutind; intros.
+    - apply L_op0; assumption.
+    - apply L_op1; assumption.
+    - apply L_nop; assumption.
+    - apply L_var1; assumption.
+    - apply L_push1_2; assumption.
+    - apply L_push1_1; assumption.
+    - apply L_push2_2; assumption.
+    - apply L_push2_1; assumption.
+    - apply L_wc; assumption.
+    - apply L_fix; assumption.
+    - apply L_swap; assumption.
+    - apply L_ms; assumption.
+    - eapply L_pushp; eassumption.
+    - apply L_setvar; assumption.
+    - apply L_loadvar; assumption.
+    - apply L_sizevar; assumption.
+    - apply L_if; assumption.
+    - apply L_ifh; assumption.
+    - apply L_try_b; assumption.
+    - apply L_try_bb; assumption.
+    - apply L_try_be; assumption.
+    - apply L_try_eb; assumption.
+    - apply L_try_ee; assumption.
+    - apply L_loop_b; assumption.
+    - apply L_loop_e; assumption.
+    - apply L_def_b; assumption.
+    - apply L_def_e; assumption.
+    - apply LI_b; assumption.
+    - apply LI_e; assumption.
+    - apply LI_bb; assumption.
+    - apply LI_be; assumption.
+    - apply LI_ee; assumption.
+    - apply L_nil.
+    - apply L_cons; assumption.
+  Qed.
 End Main.
